@@ -11,7 +11,8 @@ import DclabModel.Lemmas.Check
   `export_without_features_clean` (`has_fluorescence` follows the features, not the metadata
   section; `partial_channel_subset_witness` = F30, open);
 * detection, one theorem per cue, each for an arbitrary rest of the description:
-  `detect_feature_length`, `detect_trace_length`, `detect_roi_mismatch`, `detect_unknown_feature`,
+  `detect_feature_length`, `detect_trace_length`, `detect_roi_mismatch` (every image-like feature;
+  `roi_every_image_like_feature_witness`), `detect_unknown_feature`,
   `detect_missing_key`, `detect_index`, `detect_channel_count`, `detect_laser_count`,
   `detect_samples_per_event`, `detect_external_link`, `detect_non_positive`,
   `detect_polygon_shape`, `detect_basin_data`;
@@ -66,6 +67,14 @@ theorem detect_roi_mismatch (d : D) (f : String) (h w : Nat) (vx vy : Val)
     simp only [vRoi, hx, hy, List.mem_append, List.mem_map, List.mem_filter]
   · exact Or.inl ⟨(f, h, w), ⟨hi, by simp [hne]⟩, rfl⟩
   · exact Or.inr ⟨(f, h, w), ⟨hi, by simp [hne]⟩, rfl⟩
+
+/-- the ROI check looks at **every** image-like feature: a `mask` (or `image_bg`) of the wrong
+    size is flagged although `image` matches; stopping at the first present feature misses it -/
+theorem roi_every_image_like_feature_witness :
+    let d : D := { cfg := [(("imaging", "roi size x"), natVal 16), (("imaging", "roi size y"), natVal 12)],
+                   images := [("image", 12, 16), ("image_bg", 12, 16), ("mask", 12, 17)] }
+    Cue.roiMismatch "roi size x" "mask" ∈ violations d ∧ vRoiFirstOnly (cfgGet d.cfg) d = [] := by
+  decide
 
 theorem detect_unknown_feature (d : D) (f : String) (hf : (f, false) ∈ d.h5events)
     (hdef : f ≠ "def") : Cue.unknownFeature f ∈ violations d := by
